@@ -12,6 +12,7 @@ git diff --quiet || { echo "$name: /tmp/mutrepo has uncommitted changes, refusin
 git apply "$p" || { echo "$name: patch does not apply" >&2; exit 2; }
 t0=$(date +%s)
 ( cd /tmp/mutsim && CARGO_NET_OFFLINE=true RUSTC_WRAPPER=/tmp/mutsim/rustc-wrap.sh cargo build --offline 2>"$out/build.log" ) || { tail -20 "$out/build.log"; git checkout -- .; exit 2; }
+/verif/sim/build-cli.sh /tmp/mutrepo /tmp/mutsim/target/cli >"$out/build-cli.log" 2>&1 || { tail -20 "$out/build-cli.log"; git checkout -- .; exit 2; }
 ( cd /verif && VERIF_ROOT=/verif /tmp/mutsim/target/debug/sim run --tier "$tier" --evidence "$out/C11.json" --replays "$out/replays" ) >"$out/log" 2>&1
 code=$?
 t1=$(date +%s)
